@@ -291,13 +291,18 @@ func (s *SpokFile) run(stream iostream.IOStream, runner shell.Runner, force bool
 
 		// Whether or not this task is now up to date depends only on how this task went,
 		// record it straight away so that nothing that happens to the tasks after it
-		// (a skip, a failure, no file dependencies) can lose it. If it failed, whatever it
-		// last succeeded on (if anything) is still the truth
-		if result.Ok() && len(toHash) != 0 {
+		// (a skip, a failure, no file dependencies) can lose it
+		switch {
+		case !result.Ok():
+			// It failed, whatever it last succeeded on (if anything) is still the truth
+			cachedState.Set(taskToRun.Name, cachedDigest)
+		case len(toHash) != 0:
 			s.logger.Debug("Updating cached state for task %s", taskToRun.Name)
 			cachedState.Set(taskToRun.Name, currentDigest)
-		} else {
-			cachedState.Set(taskToRun.Name, cachedDigest)
+		default:
+			// It succeeded with nothing to hash (e.g. a glob that matched no files), so there
+			// is nothing to compare against next time and it will run again
+			cachedState.Set(taskToRun.Name, "")
 		}
 		if err := cachedState.Dump(cachePath); err != nil {
 			return nil, err
